@@ -90,10 +90,17 @@ def phase : Pc → Option Bool
   | .pushStore (.erase _) .. | .pushCas (.erase _) .. => some true
   | _ => none
 
-/-- a `push` after its linking store -/
+/-- a `push` after its linking store, an `erase` after its unlinking store and before it unlocks -/
 def pushDone : Pc → Bool
   | .pE2 .. | .pB3 .. | .pUnlock _ => true
+  | .eFix .. | .eAlloc .. | .eCons .. | .eZh .. | .pushStore (.erase _) .. | .pushCas (.erase _) .. => true
   | _ => false
+
+theorem pushDone_holds {p : Pc} (h : pushDone p = true) : holdsW p = true := by
+  cases p with
+  | pushStore c r e => cases c <;> simp [pushDone] at h <;> simp [holdsW]
+  | pushCas c r e => cases c <;> simp [pushDone] at h <;> simp [holdsW]
+  | _ => simp [pushDone] at h <;> simp [holdsW]
 
 theorem phase_holds {p : Pc} (h : phase p ≠ none) : holdsW p = true := by
   cases p with
@@ -150,9 +157,7 @@ theorem invW_acq {s s' : St} {w : Wh} {t : Tid} (ha : InvA s) (h : InvW s w) (hm
     by_cases hut : u = t
     · subst hut; rw [hd] at hu; cases hu
     · rw [hvpc u hut] at hu
-      have : holdsW (s.pc u) = true := by
-        revert hu; cases s.pc u <;> simp [pushDone, holdsW]
-      have := (ha.wm u).1 this
+      have := (ha.wm u).1 (pushDone_holds hu)
       rw [hm] at this; cases this
 
 /-- the linearisation store of the mutex holder -/
